@@ -67,6 +67,8 @@ TxnAtomic(r) ==
     LET bad == {k \in 1..Len(r.callers) : r.callers[k].exc = "none" /\ CallerAtomic(r.wire, r.callers[k]) # ""}
         unknown == {k \in 1..Len(r.wire) : \A j \in 1..Len(r.callers) : r.callers[j].name # r.wire[k].task}
     IN IF r.info.loop_exc # "none" THEN Fail("event-loop:" \o r.info.loop_exc, 0)
+       \* a send on a serial driver that has not been connected yet is refused with IOError
+       ELSE IF \E k \in 1..Len(r.presend) : r.presend[k] \notin {"IOError", "OSError"} THEN Fail("send-before-connect-not-refused", 0)
        ELSE IF r.out.hung # <<>> THEN Fail("caller-never-completed:" \o r.out.hung[1], 0)
        ELSE IF \E k \in 1..Len(r.callers) : r.callers[k].done # 1 THEN Fail("caller-not-done", 0)
        \* (a cancelled sequence whose own clean-up misbehaves at close() ends with RuntimeError; everybody else is judged as usual)
